@@ -19,6 +19,7 @@ EXPLANATION = (
     "identity. Both are decided by a rational-function normal form of the MIR expression (no execution); where the code "
     "is not straight-line arithmetic the formula is recorded as not evaluated and only R19.2 / R19.4 apply."
     ' (R19.10) the filter state as a representation of a box: initiate / update / distance take the plain coordinates in the order the state -> box conversion reads back (R07.10).')
+EXPLANATION += " (R19.11) the constructors store the caller's values unchanged; R19.8 decides `match angle` forms by a case split on the option."
 NOT_DECIDED = ["float rounding of the ltwh <-> universal round trip and of the polygon vertices (the real-valued "
                "formulas are decided: R19.8 / R19.9)", "angle normalisation as a numeric statement (R19.7 decides that "
                "whole turns are removed)", "reflexivity for NaN coordinates"]
@@ -307,6 +308,9 @@ def formula_rules(ctx):
     ctx.rule('R19.9', 'ltwh -> universal -> ltwh is the identity on left, top, width, height, confidence '
                       '(composition of the two conversions as rational functions)')
     ctx.evaluated('R19.9', geomlib.roundtrip_rule(ctx, 'R19.9'), 6)
+    ctx.rule('R19.11', 'the constructors of the rotated box store what the caller passed (new / new_with_confidence: every '
+                       'parameter; rotate / rotate_mut: the angle) - no arithmetic between the argument and the field')
+    ctx.evaluated('R19.11', geomlib.stored_unchanged_rule(ctx, 'R19.11'), 13)
 
 
 def run(ctx):
